@@ -38,7 +38,8 @@ Record hh := {
   hh_model : HNSW.hstate; hh_live : list (Z * vec); hh_i : Z; hh_weak : Z;
   hh_tainted : bool;        (* an unstable sort met equal distances: the model may have diverged *)
   hh_peak : Z;              (* most vertices resident at once since the index was last empty or flushed *)
-  hh_found : list Z }.
+  hh_found : list Z;
+  hh_div : option (list Z) }.  (* the implementation's graph stopped being the model's (first place); the model then follows the implementation and only the property's own clauses decide *)
 
 (** the structure the property demands: every resident vertex reachable from the entry point *)
 Definition all_reachable (s : HNSW.hstate) : bool :=
@@ -48,7 +49,7 @@ Definition hstep (cfg : hcfg) (h : hh) (o : hop) : hh + list Z :=
   let s := hh_model h in
   let mk s' live w t peak found :=
       inl {| hh_model := s'; hh_live := live; hh_i := hh_i h + 1; hh_weak := hh_weak h + w;
-             hh_tainted := t; hh_peak := peak; hh_found := found |} in
+             hh_tainted := t; hh_peak := peak; hh_found := found; hh_div := hh_div h |} in
   match o with
   | HAdd id v level elected err =>
       let '(s', e, tie) := hadd cfg s id v level elected in
@@ -77,7 +78,17 @@ Definition hstep (cfg : hcfg) (h : hh) (o : hop) : hh + list Z :=
       else if hh_tainted h then
         (* resynchronise on the implementation's graph after an order-dependent step *)
         mk s_impl (hh_live h) 1 false (hh_peak h) found'
-      else inr (verdict false true [hh_i h; -6; hs_entry s; hs_maxlevel s])
+      else if all_reachable s && negb (all_reachable s_impl) then
+        (* the reachability clause itself, on the implementation's own graph: a resident vertex is cut
+           off from the entry point although the unchanged algorithm (the model) keeps every vertex
+           reachable at this point of the history *)
+        inr (v_violation [hh_i h; -7; hs_entry s_impl])
+      else
+        (* the graphs differ but the structure clause still holds: follow the implementation and let
+           the non-emptiness / exactness clauses look for a failing query *)
+        inl {| hh_model := s_impl; hh_live := hh_live h; hh_i := hh_i h + 1; hh_weak := hh_weak h;
+               hh_tainted := false; hh_peak := hh_peak h; hh_found := hh_found h;
+               hh_div := match hh_div h with Some d => Some d | None => Some [hh_i h; -6; hs_entry s; hs_maxlevel s] end |}
   | HSearch rq ef err out =>
       let out := canon32_pairs out in
       match hexecute cfg s rq ef with
@@ -104,7 +115,8 @@ Definition hstep (cfg : hcfg) (h : hh) (o : hop) : hh + list Z :=
           (* a live vertex that is missed while the graph (identical in model and implementation) has a
              resident vertex unreachable through the bottom layer is the listed finding (nearest-M
              pruning / Flush without reconnecting), seen through the non-emptiness or exactness clause *)
-          let missed v := if sound && negb (all_reachable s) then v_known 1 else v in
+          let missed v := if sound && negb (all_reachable s) && match hh_div h with None => true | Some _ => false end
+                          then v_known 1 else v in
           if negb (err =? 0) then inr (verdict false false [hh_i h; 0])
           else match xo_n xo with
                | None => inr (verdict false snd_ok [hh_i h; E_PANIC])
@@ -122,9 +134,10 @@ Definition hstep (cfg : hcfg) (h : hh) (o : hop) : hh + list Z :=
 
 Fixpoint hrun (cfg : hcfg) (h : hh) (ops : list hop) : list Z :=
   match ops with
-  | [] => match hh_found h with
-          | k :: _ => [3; k]
-          | [] => if hh_weak h =? 0 then v_ok else [0; hh_weak h]
+  | [] => match hh_div h, hh_found h with
+          | Some d, _ => v_diverge d
+          | None, k :: _ => [3; k]
+          | None, [] => if hh_weak h =? 0 then v_ok else [0; hh_weak h]
           end
   | o :: t => match hstep cfg h o with inl h' => hrun cfg h' t | inr v => v end
   end.
@@ -133,4 +146,4 @@ Fixpoint hrun (cfg : hcfg) (h : hh) (ops : list hop) : list Z :=
 Definition chk_hnswhist : P (list Z) :=
   d <- pz ;; m <- pz ;; mm <- pz ;; efc <- pz ;; efs <- pz ;; ops <- plist phop ;;
   let cfg := {| hc_dim := d; hc_metric := metric_of_Z m; hc_M := mm; hc_efc := efc; hc_efs := efs |} in
-  ret (hrun cfg {| hh_model := hinit; hh_live := []; hh_i := 0; hh_weak := 0; hh_tainted := false; hh_peak := 0; hh_found := [] |} ops).
+  ret (hrun cfg {| hh_model := hinit; hh_live := []; hh_i := 0; hh_weak := 0; hh_tainted := false; hh_peak := 0; hh_found := []; hh_div := None |} ops).
